@@ -53,6 +53,8 @@ class Gen:
     def leaf(self):
         r = self.rng
         k = r.random()
+        if r.random() < 0.08:
+            return r.choice([False, True])        # boolean schemas: `Nothing()` / `Element()` in the generated text
         if k < 0.25:
             return {"type": "string", **({"maxLength": r.choice([1, 3])} if r.random() < 0.3 else {})}
         if k < 0.45:
@@ -69,6 +71,12 @@ class Gen:
     def obj(self, depth, refs):
         r = self.rng
         s = {"type": "object"}
+        shape = r.random()
+        if shape < 0.12:
+            s["type"] = ["object", r.choice(["null", "string"])]       # a type list holding "object"
+        elif shape < 0.24:
+            # an object class next to a composition keyword
+            s[r.choice(["anyOf", "oneOf", "allOf"])] = [{"required": [r.choice(CLEAN_PROPS)]}] if r.random() < 0.6 else [self.leaf()]
         if r.random() < 0.6:
             s["title"] = r.choice(TITLES)
         if r.random() < 0.3:
